@@ -152,6 +152,53 @@ func (e *Engine) builtin(g *G, b *ssa.Builtin, args []Value, argTypes []types.Ty
 			}
 		}
 		return nil
+	case "SliceData":
+		sl := args[0].(Slice)
+		if sl.obj == nil {
+			return Ptr{}
+		}
+		return Ptr{obj: sl.obj, off: sl.off}
+	case "StringData":
+		st := args[0].(Str)
+		if st.Len() == 0 {
+			return Ptr{}
+		}
+		sl := e.strToSlice(st, types.Typ[types.Uint8])
+		return Ptr{obj: sl.obj, off: 0}
+	case "String":
+		p := args[0].(Ptr)
+		n := int(e.concInt(args[1].(*Term), nil))
+		if n == 0 {
+			return Str{}
+		}
+		if p.obj == nil {
+			e.goPanicRuntime("unsafe.String: ptr is nil and len is not zero")
+		}
+		if p.sym != nil {
+			p = e.concretizePtr(p)
+		}
+		ts := make([]*Term, n)
+		for i := range ts {
+			ts[i] = p.obj.get(p.off + i).(*Term)
+		}
+		return mkStr(ts)
+	case "Slice":
+		p := args[0].(Ptr)
+		n := int(e.concInt(args[1].(*Term), nil))
+		if p.obj == nil {
+			if n != 0 {
+				e.goPanicRuntime("unsafe.Slice: ptr is nil and len is not zero")
+			}
+			return Slice{}
+		}
+		if p.sym != nil {
+			p = e.concretizePtr(p)
+		}
+		es := 1
+		if in != nil {
+			es = flatSize(in.Type().Underlying().(*types.Slice).Elem())
+		}
+		return Slice{obj: p.obj, off: p.off, len: n, cap: n, esz: es}
 	case "ssa:wrapnilchk":
 		if p, ok := args[0].(Ptr); ok && p.obj == nil {
 			e.goPanicRuntime("value method called using nil pointer")
